@@ -5,11 +5,11 @@ UNIT = dict(
     canary_use="broadcast use fl; broadcast use ideal; ax_obeys(); ax_rv_lits();",
     assumptions=[
         "idealised-real float mode for the reach product",
-        "BLOCK: body of the loop over a decision node's actions in vanilla::thread_threshold (the breadth-first frontier expansion), free variables as parameters; every name of the enclosing scope the body could refer to is a parameter with an arbitrary value, so a body that stops initialising its reach vector per action is rejected",
+        "BLOCK: the decision-node arm of vanilla::thread_threshold (the breadth-first frontier expansion) -- the lookup of the infoset's current strategy and the loop over the actions --, free variables as parameters",
         "PlayerNum::ind_mut two-case spec (Kani harness playernum_ind)",
         "chance arm: the unit is the expression body of the closure handed to `.map` in `work.extend(info.next_nodes(chance).map(..))`; the chain itself (Vec::extend over Map over the ChanceRecurse iterator, which yields the outcomes the infoset enumerates or samples: C10) is std code pinned by an `expect` pattern",
     ],
-    expect=[("src/solve/vanilla.rs", r"Some\(\(Node::Chance\(chance\), p_chance, p_player\)\) => \{\s*let info = &chance_infosets\[chance\.infoset\];\s*work\.extend\(\s*info\.next_nodes\(chance\)\s*\.map\(\|\(prob, node\)\| [^|]*\),\s*\);\s*\}")],
+    expect=[("src/solve/vanilla.rs", r"Some\(\(Node::Chance\(chance\), p_chance, p_player\)\) => \{\s*(?://[^\n]*\n\s*)*let info = &chance_infosets\[chance\.infoset\];\s*(?://[^\n]*\n\s*)*work\.extend\(\s*info\.next_nodes\(chance\)\s*\.map\(\|\((prob|_prob|_), node\)\| [^|]*\),\s*\);\s*\}")],
     items=[
         dict(file="src/lib.rs", path="enum PlayerNum", attrs="#[derive(Copy, Clone)]"),
         dict(raw=open(P + "playernum.rs").read()),
@@ -22,23 +22,55 @@ UNIT = dict(
         PlayerNum::Two => p_next[0] == p_player[0] && rv(p_next[1]) == rv(p_player[1]) * rv(prob),
     }
 }"""),
-        dict(file="src/solve/vanilla.rs", path="fn thread_threshold", loop=1, n_loops=2,
-             header_re=r"^for \(prob, next\) in probs\.iter\(\)\.zip\(player\.actions\.iter\(\)\)",
-             as_fn="thread_threshold__player_action", generics="<'a>",
-             params="player: &Player, prob: &f64, next: &'a Node, p_chance: f64, p_player: [f64; 2], work: &mut Vec<(&'a Node, f64, [f64; 2])>, mut next_probs: [f64; 2]",
+        dict(raw="""#[verifier::external_body] pub struct AtomicF64 { }
+#[verifier::external_body]
+#[verifier::reject_recursive_types(T)]
+pub struct Mutex<T> { t: core::marker::PhantomData<T> }
+"""),
+        dict(file="src/solve/vanilla.rs", path="struct MutexRegretInfoset"),
+        dict(file="src/solve/vanilla.rs", path="fn thread_threshold", arm_re=r"Some\(\(Node::Player\(player\), p_chance, p_player\)\) => \{", arm_count=1,
+             as_fn="thread_threshold__player_node", generics="<'a, 'b>",
+             params="player: &'a Player, p_chance: f64, p_player: [f64; 2], mut player_infosets: [&'b mut [MutexRegretInfoset]; 2], work: &mut Vec<(&'a Node, f64, [f64; 2])>",
              obligation="C06.V.thread_threshold.frontier_reach",
-             contract="""ensures
-    // exactly one frontier entry per action: the child, the unchanged chance reach, and the reach
-    // vector of ITS path -- only the acting player's entry multiplied by this action's probability
-    final(work)@.len() == old(work)@.len() + 1,
+             rules=["R3", "R1", "R9", "R10"],
+             contract="""requires
+    player.infoset < (match player.num { PlayerNum::One => player_infosets[0]@, PlayerNum::Two => player_infosets[1]@ }).len(),
+    (match player.num { PlayerNum::One => player_infosets[0]@, PlayerNum::Two => player_infosets[1]@ })[player.infoset as int].strat@.len() == player.actions@.len(),
+ensures
+    // exactly one frontier entry per action, in order: the child, the unchanged chance reach, and the
+    // reach vector of ITS path -- only the acting player's entry multiplied by this action's probability
+    final(work)@.len() == old(work)@.len() + player.actions@.len(),
     final(work)@.take(old(work)@.len() as int) == old(work)@,
-    final(work)@.last().0 == next && final(work)@.last().1 == p_chance, // @ob C06.V.thread_threshold.frontier_reach
-    pnext_ok(player.num, p_player, *prob, final(work)@.last().2), // @ob C06.V.thread_threshold.frontier_reach""",
-             entry="broadcast use fl; broadcast use ideal;\nproof { ax_obeys(); ax_rv_lits(); }"),
+    forall|a: int| 0 <= a < player.actions@.len() ==> (#[trigger] final(work)@[old(work)@.len() + a]).0 == &player.actions@[a]
+        && final(work)@[old(work)@.len() + a].1 == p_chance
+        && pnext_ok(player.num, p_player, (match player.num { PlayerNum::One => player_infosets[0]@, PlayerNum::Two => player_infosets[1]@ })[player.infoset as int].strat@[a],
+                    final(work)@[old(work)@.len() + a].2), // @ob C06.V.thread_threshold.frontier_reach""",
+             entry="""broadcast use fl; broadcast use ideal;
+proof { ax_obeys(); ax_rv_lits(); }
+let ghost w0 = work@;
+let ghost st = (match player.num { PlayerNum::One => player_infosets[0]@, PlayerNum::Two => player_infosets[1]@ })[player.infoset as int].strat@;
+let ghost acts = player.actions@;""",
+             loops={0: dict(kind="for", binder="it",
+                            head="""invariant
+    probs@ == st, st.len() == acts.len(), acts == player.actions@,
+    0 <= it.index@ <= acts.len(),
+    work@.len() == w0.len() + it.index@,
+    work@.take(w0.len() as int) == w0,
+    forall|a: int| 0 <= a < it.index@ ==> (#[trigger] work@[w0.len() + a]).0 == &acts[a] && work@[w0.len() + a].1 == p_chance
+        && pnext_ok(player.num, p_player, st[a], work@[w0.len() + a].2),""",
+                            body_start="""broadcast use fl; broadcast use ideal;
+proof { ax_obeys(); ax_rv_lits(); }
+let ghost k = it.index@ as int;
+let ghost wb = work@;""",
+                            body_end="""proof {
+    assert(work@.len() == wb.len() + 1);
+    assert(work@.take(w0.len() as int) =~= w0);
+    assert(forall|a: int| 0 <= a < k ==> (#[trigger] work@[w0.len() + a]) == wb[w0.len() + a]);
+}""")}),
         # chance arm of the frontier expansion: `work.extend(info.next_nodes(chance).map(F))`; F is an
         # expression-bodied closure, extracted as a fn (the extend/map chain is std code, pinned textually)
         dict(file="src/solve/vanilla.rs", path="fn thread_threshold", closure=0, expr_closure=True,
-             header_re=r"^\|\(prob, node\)\|$",
+             header_re=r"^\|\((prob|_prob|_), node\)\|$",
              as_fn="thread_threshold__chance_outcome", generics="<'a>",
              params="prob: &f64, node: &'a Node, p_chance: f64, p_player: [f64; 2]",
              ret="out", ret_type="(&'a Node, f64, [f64; 2])",
